@@ -164,7 +164,7 @@ type ovRun struct {
 	r     *sup.CaseResult
 	bad   bool
 
-	steps, lockedSteps, reads, fromParent, writes, keysCalls, nested int64
+	steps, lockedSteps, reads, fromParent, writes, keysCalls, nested, wraps int64
 }
 
 func (o *ovRun) fail(class, detail string) {
@@ -254,6 +254,21 @@ func (o *ovRun) set(s int, k, v interface{}) {
 	o.writes++
 }
 
+// wrapAndClose opens a second, short-lived scope on the data scope of node s and closes it again
+// (what the terminal does for every command): the data scope and its chain belong to the scopes
+// that are still open – nothing they see may change.
+func (o *ovRun) wrapAndClose(s int) {
+	o.log(fmt.Sprintf("scope.New(DataScope: s%d).Close()", s))
+	o.now(o.hist[len(o.hist)-1])
+	var ds app.DataScope = o.s.scopes[s]
+	if sc, ok := ds.(app.Scope); ok {
+		ds = sc.BaseDataScope()
+	}
+	tmp := scope.New(scope.Params{DataScope: ds})
+	tmp.Close()
+	o.wraps++
+}
+
 func (o *ovRun) lset(k, v interface{}) {
 	o.log(fmt.Sprintf("locker(s%d).SetValue(%s,%s)", o.s.locked, keyStr(k), valStr(v)))
 	o.now(o.hist[len(o.hist)-1])
@@ -306,6 +321,7 @@ func (o *ovRun) finish() {
 	r.AddObs("ovl_parent_fallthrough_reads", o.fromParent)
 	r.AddObs("ovl_writes", o.writes)
 	r.AddObs("ovl_keys_calls_checked", o.keysCalls)
+	r.AddObs("ovl_short_lived_scopes_on_a_shared_data_scope", o.wraps)
 }
 
 // ---- bounded-exhaustive histories -------------------------------------------------------------
@@ -330,6 +346,8 @@ func exhOps() []exhOp {
 			}
 		}
 	}
+	// kind 4: a short-lived second scope on the data scope of s1 / s2 is opened and closed
+	ops = append(ops, exhOp{4, 1, "a"}, exhOp{4, 2, "a"})
 	return ops
 }
 
@@ -371,6 +389,8 @@ func runExhHistory(r *sup.CaseResult, idx, n, flavour int) *ovRun {
 			o.set(op.s, op.k, fmt.Sprintf("v%d", fresh))
 		case 1:
 			o.set(op.s, op.k, nil)
+		case 4:
+			o.wrapAndClose(op.s)
 		case 3:
 			// the scope is given, as its own, the value it sees at the moment (e.g. a task scope that
 			// re-binds the manager it inherits): it must keep it when an ancestor changes later
@@ -503,7 +523,11 @@ func runOvl(c *sup.Child, b sup.Batch) {
 						case x < 9:
 							o.lock(s)
 						default:
-							o.log("observe")
+							if rng.Intn(2) == 0 {
+								o.wrapAndClose(s)
+							} else {
+								o.log("observe")
+							}
 						}
 					} else {
 						switch x := rng.Intn(12); {
